@@ -1545,13 +1545,15 @@ CaseX86M_GPB_MulDiv:
         const Imm& imm0 = o0.as<Imm>();
         const Imm& imm1 = o1.as<Imm>();
 
-        // Selector is an unsigned 16-bit value, offset is either signed or unsigned 32-bit value. The offset has to
-        // be masked as a sign-extended (negative) offset would otherwise overwrite the selector.
-        if (uint64_t(imm0.value()) > 0xFFFFu || (!Support::is_int_n<32>(imm1.value()) && !Support::is_uint_n<32>(imm1.value())))
+        // Selector is either signed or unsigned 16-bit value (the same as the instruction signature that strict
+        // validation uses), offset is either signed or unsigned 32-bit value. Both have to be masked as a sign-extended
+        // (negative) offset would otherwise overwrite the selector and a negative selector the bytes that follow it.
+        if ((!Support::is_int_n<16>(imm0.value()) && !Support::is_uint_n<16>(imm0.value())) ||
+            (!Support::is_int_n<32>(imm1.value()) && !Support::is_uint_n<32>(imm1.value())))
           goto InvalidImmediate;
 
         opcode = alt_opcode_of(inst_info);
-        imm_value = (imm1.value() & 0xFFFFFFFF) | (imm0.value() << 32);
+        imm_value = (imm1.value() & 0xFFFFFFFF) | ((imm0.value() & 0xFFFF) << 32);
         imm_size = 6;
         goto EmitX86Op;
       }
